@@ -117,7 +117,8 @@ def wl_documents(ctx, rng, case_no):
     from rich.errors import MarkupError
     from rich.text import Text
     console = _setup()
-    g = MG.generate(rng, markup.escape, max_events=rng.choice([4, 8, 14]))
+    # (long documents: dozens of tags, many of them open at once - whatever keeps the open tags must keep their ORDER)
+    g = MG.generate(rng, markup.escape, max_events=rng.choice([4, 8, 14, 14, 14, 40, 120]))
     doc = g["doc"]
     base = None
     if rng.random() < 0.3:
